@@ -171,6 +171,8 @@ def vjoin(a, b):
                 fields[k] = vjoin(fa, fb)
             elif k.startswith("#may:"):
                 fields[k] = fa if fa is not None else fb
+            elif k == "#uniq" and "[*]" not in (b if fa is not None else a).fields:
+                fields[k] = fa if fa is not None else fb      # joined with an empty collection (`vec![]`): still duplicate-free
             # other tags known on one side only: unknown after the join -> dropped
             continue
         if fa is None:
@@ -238,9 +240,11 @@ def with_tag(v, tag, tv):
 
 
 def without_tags(v):
-    if not any(k.startswith("#") for k in v.fields):
+    """drop the must-tags (variant, callee, uniqueness ...) of a value that went through a combinator; the may-tags (what selected /
+    permuted / positioned the value) stay, they describe the data and not the wrapper"""
+    if not any(k.startswith("#") and not k.startswith("#may:") for k in v.fields):
         return v
-    return Val(v.atoms, {k: x for k, x in v.fields.items() if not k.startswith("#")})
+    return Val(v.atoms, {k: x for k, x in v.fields.items() if not k.startswith("#") or k.startswith("#may:")})
 
 
 def const_of(v):
